@@ -3,9 +3,11 @@ package main
 import (
 	"bytes"
 	"encoding/json"
+	"errors"
 	"fmt"
 	"math/rand"
 	"sort"
+	"sync"
 	"time"
 
 	"github.com/dgraph-io/badger/v3"
@@ -45,9 +47,18 @@ type c12Input struct {
 	//   "reffault" the SQLite ref store fails (disk I/O error) from the Fault-th row of a scan on
 	//   "gc"       a repository directory (badger + SQLite files) with transactions of several ages,
 	//              `wrgl gc` / `wrgl prune` through the command line
+	//   "readfault" the object store fails one read of one commit object once (a transient
+	//              input/output error) during prune: the Fault-th read of commit FaultCommit
 	Shape string    `json:"shape,omitempty"`
 	Fault int       `json:"fault,omitempty"`
 	GC    *c12GCSpec `json:"gc,omitempty"`
+	// FaultCommit: id of the commit whose read fails (shape "readfault"); FaultSel: how the
+	// generator chose it (kept so that a replay makes the same choice)
+	FaultCommit int `json:"faultCommit,omitempty"`
+	FaultSel    int `json:"faultSel,omitempty"`
+	// FaultKind: what the failing read reports: "" an input/output error; "absent" that the object
+	// is not in the store (objects.ErrKeyNotFound) although it is
+	FaultKind string `json:"faultKind,omitempty"`
 }
 
 // c12Store is what the runner needs of an object store: the store itself and an enumeration of its
@@ -163,6 +174,15 @@ func buildC12(seed int64, shape string) (*c12World, error) {
 		}
 		w.closeRS = closeRS
 		return w, nil
+	case "readfault":
+		rs, closeRS := NewRefStore()
+		w, err := buildC12On(seed, shape, NewMemStore(), rs)
+		if err != nil {
+			closeRS()
+			return nil, err
+		}
+		w.closeRS = closeRS
+		return w, nil
 	}
 	rs, closeRS := NewRefStore()
 	w, err := buildC12On(seed, "", NewMemStore(), rs)
@@ -270,7 +290,7 @@ func buildC12On(seed int64, shape string, db c12Store, rs ref.Store) (*c12World,
 	switch shape {
 	case "big":
 		nRefs = 1 + r.Intn(4)
-	case "reffault":
+	case "reffault", "readfault":
 		nRefs = 2 + r.Intn(4)
 	}
 	for i := 0; i < nRefs; i++ {
@@ -362,6 +382,199 @@ func c12RunFault(w *c12World, k int) (Res, *c12Repo) {
 	return res, before
 }
 
+// ---- one transient read failure of a commit object during prune ---------------------------------
+
+// c12ReadFaultStore serves everything from the wrapped store except the nth read of one key, which
+// fails once (the read after it succeeds again): with an input/output error, or, absent set, with
+// the store's "key not found".
+type c12ReadFaultStore struct {
+	objects.Store
+	mu     sync.Mutex
+	key    string
+	nth    int
+	absent bool
+	seen   int
+	fired  bool
+}
+
+func (s *c12ReadFaultStore) Get(k []byte) ([]byte, error) {
+	s.mu.Lock()
+	if string(k) == s.key {
+		s.seen++
+		if s.seen == s.nth && !s.fired {
+			s.fired = true
+			s.mu.Unlock()
+			if s.absent {
+				return nil, objects.ErrKeyNotFound
+			}
+			return nil, errors.New("input/output error")
+		}
+	}
+	s.mu.Unlock()
+	return s.Store.Get(k)
+}
+
+func (s *c12ReadFaultStore) hit() bool {
+	s.mu.Lock()
+	defer s.mu.Unlock()
+	return s.fired
+}
+
+// c12RunReadFault: prune while the nth read of commit c fails once, then prune once more on the
+// healthy store. Judged like a failing ref scan: whatever the first run reports, nothing reachable
+// from a ref may be lost; a run that reports success must have done the whole job.
+func c12RunReadFault(w *c12World, c, nth int, kind string) (Res, *c12Repo) {
+	before := w.dump()
+	res := Guard(func() Res {
+		fs := &c12ReadFaultStore{Store: w.db, key: "com/" + string(w.comSum[c]), nth: nth, absent: kind == "absent"}
+		err := prune.Prune(fs, w.rs, nil)
+		after := w.dump()
+		usable := c12Usable(w, before, after)
+		retryErr := prune.Prune(w.db, w.rs, nil) != nil
+		again := w.dump()
+		return Ok(map[string]interface{}{"faultHit": fs.hit(), "pruneErr": err != nil, "after": after, "usable": usable,
+			"retryErr": retryErr, "afterRetry": again, "usableRetry": c12Usable(w, before, again)})
+	})
+	return res, before
+}
+
+// c12PickReadFault chooses the commit whose read fails and which of its reads, from the shape of the
+// repository. The mark phase of prune reads the target of every ref, then the parents of everything
+// it reaches; the sweep reads every surviving commit once more.
+//   sel 0,1  a commit a ref points at that the mark phase comes to a second time — through another
+//            ref on the same commit, or as an ancestor of another ref's commit (a release branch or
+//            a tag on an older commit of main) —, its first read; none such: as sel 2
+//   sel 2    any commit in the history of a ref, its first or second read, except the first read of
+//            a ref's target that nothing else leads to
+//   sel 3    any commit a ref points at, its first read
+func c12PickReadFault(w *c12World, seed int64, sel int) (c, nth int, tags []string) {
+	r := rand.New(rand.NewSource(seed*53 + 17))
+	anc := map[int][]int{}
+	refCount := map[int]int{}
+	for _, x := range w.refs {
+		refCount[x]++
+		if anc[x] == nil {
+			anc[x] = c11Ancestors(w.all, x)
+		}
+	}
+	inner := func(x int) bool { // x is a proper ancestor of another ref's commit
+		for y, a := range anc {
+			if y == x {
+				continue
+			}
+			for _, z := range a {
+				if z == x {
+					return true
+				}
+			}
+		}
+		return false
+	}
+	again := func(x int) bool { return refCount[x] >= 2 || inner(x) }
+	inHistory := map[int]bool{}
+	for _, a := range anc {
+		for _, z := range a {
+			inHistory[z] = true
+		}
+	}
+	var targets, agains, others []int
+	for _, c := range w.all {
+		switch {
+		case refCount[c.ID] > 0 && again(c.ID):
+			targets = append(targets, c.ID)
+			agains = append(agains, c.ID)
+		case refCount[c.ID] > 0:
+			targets = append(targets, c.ID)
+		case inHistory[c.ID]:
+			others = append(others, c.ID)
+		}
+	}
+	pickFrom := func(ls ...[]int) int {
+		for _, l := range ls {
+			if len(l) > 0 {
+				return l[r.Intn(len(l))]
+			}
+		}
+		return 0
+	}
+	nth = 1
+	switch sel {
+	case 0, 1:
+		c = pickFrom(agains)
+	case 3:
+		c = pickFrom(targets)
+	}
+	if c == 0 {
+		// sel 2, or nothing of the wanted kind in this repository
+		nth = 1 + r.Intn(2)
+		if nth == 1 {
+			c = pickFrom(append(append([]int{}, agains...), others...), targets)
+		} else {
+			c = pickFrom(append(append([]int{}, targets...), others...))
+		}
+		if c != 0 && refCount[c] > 0 && !again(c) {
+			nth = 2
+		}
+	}
+	if c == 0 {
+		// no ref: nothing is read; any commit
+		c = 1 + r.Intn(len(w.all))
+	}
+	tags = []string{"commit-read-fault"}
+	if refCount[c] > 0 {
+		tags = append(tags, "fault-on-ref-target")
+		if again(c) {
+			tags = append(tags, "ref-target-reached-again")
+		} else {
+			tags = append(tags, "ref-target-reached-once")
+		}
+	}
+	tags = append(tags, "read#"+itoa(nth))
+	return
+}
+
+func c12ReadFaultCase(ctx *Ctx, seed int64, sel int, kind string, fc, fn int, corpus bool) {
+	if kind != "absent" {
+		kind = ""
+	}
+	w, err := buildC12(seed, "readfault")
+	if err != nil {
+		if !corpus {
+			ctx.Emit("prune-readfault", map[string]interface{}{"genSeed": seed, "shape": "readfault"}, Err("build"), false)
+		}
+		return
+	}
+	defer w.closeRS()
+	refs := w.refs
+	if refs == nil {
+		refs = []int{}
+	}
+	c, nth, tags := c12PickReadFault(w, seed, sel)
+	if corpus && fc > 0 && fn > 0 {
+		if _, ok := w.comSum[fc]; ok {
+			c, nth = fc, fn
+		}
+	}
+	res, before := c12RunReadFault(w, c, nth, kind)
+	if kind == "absent" {
+		tags = append(tags, "read-reports-absent")
+	} else {
+		tags = append(tags, "read-reports-io-error")
+	}
+	nt := false
+	if res["res"] == "ok" {
+		v := res["val"].(map[string]interface{})
+		if v["faultHit"].(bool) {
+			tags = append(tags, "fault-hit")
+		}
+		nt = len(v["afterRetry"].(*c12Repo).Commits) < len(before.Commits)
+	}
+	if corpus {
+		tags, nt = []string{"corpus"}, true
+	}
+	ctx.Emit("prune-readfault", &c12Input{Seed: seed, Before: before, Refs: refs, Shape: "readfault", Fault: nth, FaultCommit: c, FaultSel: sel, FaultKind: kind}, res, nt, tags...)
+}
+
 func c12Run(w *c12World) (Res, *c12Repo) {
 	before := w.dump()
 	res := Guard(func() Res {
@@ -397,7 +610,7 @@ func c12ShapeOf(idx int) string {
 
 func c12Case(ctx *Ctx, seed int64, shape string, fault int, corpus bool) {
 	if shape == "gc" {
-		c12GCCase(ctx, seed, corpus)
+		c12GCCase(ctx, seed, 0, corpus)
 		return
 	}
 	if shape != "big" && shape != "reffault" {
@@ -468,16 +681,38 @@ func runC12(ctx *Ctx) {
 		// 0..5 rows of the scan are delivered before the error (2..5 refs exist)
 		fault = []int{1, 2, 0, 1, 3, 2, 1, 4, 2, 5}[(ctx.Idx/20)%10]
 	}
+	if shape == "gc" {
+		c12GCCase(ctx, seed, c12ZoneOf(ctx.Idx), false)
+		return
+	}
 	c12Case(ctx, seed, shape, fault, false)
+	if ctx.Idx%10 == 7 {
+		// in addition to the case above: a repository of its own with more refs, pruned while one
+		// read of one commit fails once
+		c12ReadFaultCase(ctx, seed, (ctx.Idx/10)%4, []string{"", "absent"}[(ctx.Idx/40)%2], 0, 0, false)
+	}
 }
 
 func corpusC12(ctx *Ctx, op string, raw json.RawMessage) {
 	if op == "gc-cli" {
+		var in c12CLIInput
+		if err := json.Unmarshal(raw, &in); err != nil {
+			panic(err)
+		}
+		ctx.Emit(op, &in, c12CLIRun(&in), true, "corpus")
 		return
 	}
 	var in c12Input
 	if err := json.Unmarshal(raw, &in); err != nil {
 		panic(err)
+	}
+	if in.Shape == "readfault" {
+		c12ReadFaultCase(ctx, in.Seed, in.FaultSel, in.FaultKind, in.FaultCommit, in.Fault, true)
+		return
+	}
+	if in.Shape == "gc" && in.GC != nil {
+		c12GCCase(ctx, in.Seed, in.GC.Zone, true)
+		return
 	}
 	c12Case(ctx, in.Seed, in.Shape, in.Fault, true)
 }
